@@ -469,7 +469,7 @@ func checkC01(c *Ctx) {
 		}
 		R.Extra["C01-readonly-data/uses"] = nData
 	}
-	R.Floor("C01-readonly-data", 3)
+	R.Floor("C01-readonly-data", 2)
 	R.Floor("C01-field", 20)
 	R.Floor("C01-list", 5)
 	R.Floor("C01-assert", 25)
